@@ -149,8 +149,8 @@ def obligations(tier, seed):
     obs = []
     members = {}
     for k in (0, 2):
-        members["wf-%s" % profiles.KN[k]] = ({"tasks": [{"w": "$w0", "due": "$d0"}, {"w": "$w1", "due": "$d1"}], "edges": [[0, 1, k]],
-                                              "teams": profiles.layout_workers("shared1", 2), "run": {"max_time": 6, "abs": ["$pa0"]}},
+        members["wf-%s" % profiles.KN[k]] = ({"tasks": [{"w": "$w0", "due": "$d0"}, {"w": "$w1", "due": "$d1"}, {"w": 2, "auto": True}], "edges": [[0, 1, k]],
+                                              "teams": profiles.layout_workers("shared1", 2) + [{"targets": [0], "workers": []}], "run": {"max_time": 6, "abs": ["$pa0"]}},
                                              [["w0", 0, 2], ["w1", 0, 2], ["pa0", -1, 2], ["d0", 0, 1], ["d1", 0, 1]])
     fac = [ob for ob in profiles.p_product("F1", thorough) if "wps=2/links=0>1/wprule=0/fs" in ob["name"]][0]
     members["prod"] = (fac["cube"]["spec"], [[n, max(lo, 1), min(hi, 2)] for n, lo, hi in fac["params"]])
